@@ -18,14 +18,14 @@ RULE = ("kinds: (run) one run with a callback recording every state, all familie
         "state with >=2 pairs whose chain skips an iterate (a rejected update happened) or a restart state; distinct = distinct (spec, state index)")
 ASSUMPTIONS = [
     "visited iterates = x0, every callback xk, the returned x; gradients there recomputed with the pure closure times the scaling factor (C05 checks that jac is that value)",
-    "objective redefinitions (rewritten gradients) are judged by C13's monitor (ii), not here",
+    "for objective redefinitions this check judges count, curvature and positive definiteness of the pairs of every state; that they are differences of the rewritten gradients is judged by C13's monitor (ii)",
     "diagonal tolerance 1e3*cond(H)*eps relative to max|diag|",
 ]
 
 
 def floors(tier):
     return {"states_checked": 3000, "pairs_matched_bit_exact": 8000, "chains_skipping_an_iterate": 60, "restart_states_checked": 150,
-            "inherited_pairs_checked": 300, "operators_spd_checked": 2500, "diag_operators": 800, "__nontrivial__": 150}
+            "inherited_pairs_checked": 300, "operators_spd_checked": 2500, "diag_operators": 800, "switch_states_checked": 300, "__nontrivial__": 150}
 
 
 def cases(tier, seed):
@@ -51,6 +51,13 @@ def cases(tier, seed):
         if chain and rng.random() < 0.3:
             cfg["restart_maxcor"] = int(rng.integers(1, cfg["maxcor"] + 1))
         yield {"kind": "run", "problem": ps, "cfg": cfg, "chain": chain}
+    nsw = 500 if tier == "quick" else 8000
+    for i in range(nsw):
+        ps = gen.rand_spec(rng, ("qp", "qp_quartic"), nmax=7, nmin=2, boxes=("none", "mixed", "boxed"), starts=("interior", "face"), condmax=1e3)
+        yield {"kind": "switch", "switch": {"problem": ps, "maxcor": int(rng.integers(3, 8)), "maxiter": int(rng.integers(8, 13)),
+                                            "switch_at": int(rng.integers(3, 8)), "variant": gen.pick(rng, ["indefinite", "indefinite", "indefinite", "reg", "rescale"]),
+                                            "vseed": int(rng.integers(0, 2**31 - 1)), "strength": float(rng.uniform(0.5, 4.0)),
+                                            "eps_SY": float(gen.pick(rng, [2.2e-16, 2.2e-16, 1e-2]))}, "ftarget_stop": bool(i % 4 == 0)}
     nd = 60 if tier == "quick" else 1500
     for i in range(nd):
         yield {"kind": "diag", "seed": subseed("C18d", seed, i) % (2**31), "count": 40}
@@ -252,10 +259,55 @@ def diag_case(spec, out, keys):
     out.sample = dict(spec=spec, last=last)
 
 
+def switch_case(spec, out, keys):
+    """Objective redefinition on the fly: every state and the result must still carry at most maxcor pairs, all with positive
+    curvature, and a symmetric positive definite operator (that the pairs are differences of the rewritten gradients is judged by C13)."""
+    from .C13 import switch_trace
+
+    sw = spec["switch"]
+    extra = dict(cb="never")
+    if spec.get("ftarget_stop"):
+        extra["maxiter"] = max(1, sw["switch_at"])  # stop right after the iteration of the switch
+    tr = switch_trace(sw, extra)
+    if tr.exc is not None:
+        # a factorisation failing on the rewritten history means the stored pairs do not define a positive definite operator
+        out.violate("run_raised_after_objective_switch", f"switch ({sw['variant']} at update call {sw['switch_at']}): {tr.exc!r}", kind="switch",
+                    exc=type(tr.exc).__name__)
+        return
+    states = [(f"callback#{i}", r["snap"]) for i, r in enumerate(tr.cb)] + [("result", tr.snap)]
+    for name, snap in states:
+        sk, yk = snap["sk"], snap["yk"]
+        out.count("switch_states_checked")
+        m = sk.shape[0]
+        if m > sw["maxcor"]:
+            out.violate("too_many_pairs", f"switch {name}: {m} pairs with maxcor={sw['maxcor']}", kind="switch")
+            return
+        if m == 0:
+            continue
+        curv = np.einsum("ij,ij->i", sk, yk)
+        if not np.all(curv > 0):
+            j = int(np.argmin(curv))
+            out.violate("pair_without_curvature", f"switch ({sw['variant']} at update call {sw['switch_at']}) {name}: pair {j} of {m} has s.y = {curv[j]!r}: "
+                        f"the operator is not positive definite", kind="switch")
+            return
+        H = inv_hess_dense(sk, yk)
+        kap = float(np.linalg.cond(H))
+        if np.isfinite(kap) and kap < 1e12:
+            ev = np.linalg.eigvalsh((H + H.T) / 2)
+            out.count("operators_spd_checked")
+            if not ev[0] > 0:
+                out.violate("operator_not_positive_definite", f"switch {name}: smallest eigenvalue {ev[0]!r}", kind="switch")
+                return
+    keys.add(f"switch/{sw['problem']['seed']}/{sw['vseed']}")
+    out.sample = dict(spec=spec, states=len(states))
+
+
 def run(spec):
     out = Outcome()
     keys = set()
-    if spec["kind"] == "run":
+    if spec["kind"] == "switch":
+        switch_case(spec, out, keys)
+    elif spec["kind"] == "run":
         run_case(spec, out, keys)
     else:
         diag_case(spec, out, keys)
